@@ -445,7 +445,7 @@ private:
                 break;
             case State::END_OF_STREAM:
                 audio[index++] = sample;
-                send_audio(lich[lich_segment++], frame_number++, audio);
+                send_audio(lich[lich_segment++], frame_number++ | 0x8000, audio);
                 audio.fill(0);
                 state_ = State::IDLE;
                 break;
